@@ -200,6 +200,9 @@ def seqRange (idx : Index) (name : Bytes) (start stop : Int) : Except Fault Seq 
       if (r.length : Int) < start ∨ (r.length : Int) < stop then .error .outOfRange
       else .ok { rcd := r, cur := start.toNat, start := start.toNat, stop := stop.toNat }
 
+/-- `Seq.Reset` -/
+def Seq.reset (s : Seq) : Seq := { s with cur := s.start }
+
 /-- error value of one `Read` call -/
 inductive RdErr where
   | nil
